@@ -280,7 +280,7 @@ def replay_program(res, g, P, pi, exe, wd, max_walks, rng):
                                % (P["id"], p.returncode, p.stderr[-600:]), path))
         return 0, 0
     out = Out(p.stdout)
-    ncalls = 0; drift = 0; ok_walks = 0
+    ncalls = 0; drift = 0; ok_walks = 0; nviol = 0
     for wi, (s, calls) in enumerate(plan):
         assert out.next() == "ok"
         bad = check_rels(P, out)
@@ -324,7 +324,11 @@ def replay_program(res, g, P, pi, exe, wd, max_walks, rng):
             d, binding, hist, a = mismatch
             desc = "[%s] after the call sequence %s: %s" % (P["id"], " ; ".join(x.replace("\t", " ") for x in hist if x != "snapshot"), d)
             if binding:
-                res.violations.append((desc, save_replay(wd, P, "walk%d" % wi, hist, d)))
+                nviol += 1
+                if nviol <= 5:           # the first few per program; the rest are counted
+                    res.violations.append((desc, save_replay(wd, P, "walk%d" % wi, hist, d)))
+                else:
+                    res.count("further_violating_walks_not_listed")
             else:
                 drift += 1
                 if drift <= 3:
